@@ -188,6 +188,10 @@ pub fn execute_stall(p: &Program, prefix: &[usize], horizon: usize, on_decision:
         f.fail_fsyncs = fault.2;
     }
     let store = sut.store().clone();
+    // "close:" programs: the (single) application thread drops the last handle of the store
+    // inside the controlled phase, so the clean shutdown is explored like any other call
+    let close_in_program = p.name.contains("close:") && p.threads.len() == 1 && on_decision.is_none();
+    let mut closer: Option<Arc<feoxdb::FeoxStore>> = if close_in_program { sut.store.take() } else { None };
     if let Some(f) = on_decision {
         let st = store.clone();
         sched.set_on_decision(Box::new(move || f(&st)));
@@ -204,6 +208,7 @@ pub fn execute_stall(p: &Program, prefix: &[usize], horizon: usize, on_decision:
         let store2 = store.clone();
         let stamp2 = stamp.clone();
         let recs2 = recs.clone();
+        let closer = closer.take();
         let h = std::thread::spawn(move || {
             sess2.install();
             let tid = sched2.register("app", true);
@@ -226,6 +231,22 @@ pub fn execute_stall(p: &Program, prefix: &[usize], horizon: usize, on_decision:
                 let log_response = sess2.log_len();
                 recs2.lock().unwrap().push(OpRec { thread: ti, idx: i, op: *op, invoke, response, out, ts, log_invoke, log_response });
                 SchedHooks::point(&*sched2, "op_boundary", ti as u64, i as u64);
+            }
+            if let Some(last) = closer {
+                // clean close = flush + shutdown: recorded as an acknowledging flush
+                drop(store2);
+                let log_invoke = sess2.log_len();
+                let invoke = stamp2.fetch_add(1, Ordering::SeqCst);
+                let _call = crate::util::in_call("close (drop) under the scheduler");
+                let out = match std::panic::catch_unwind(std::panic::AssertUnwindSafe(move || drop(last))) {
+                    Ok(()) => Out::Unit,
+                    Err(p) => Out::Panic(crate::sut::panic_text(p)),
+                };
+                let response = stamp2.fetch_add(1, Ordering::SeqCst);
+                recs2.lock().unwrap().push(OpRec { thread: ti, idx: ops.len(), op: Op::Flush, invoke, response, out, ts: 0, log_invoke, log_response: sess2.log_len() });
+                sched2.finish_thread();
+                Session::uninstall();
+                return;
             }
             sched2.finish_thread();
             drop(store2);
@@ -270,7 +291,7 @@ pub fn execute_stall(p: &Program, prefix: &[usize], horizon: usize, on_decision:
         f.fail_writes = false;
         f.fail_fsyncs = false;
     }
-    if ex.unjoined == 0 && matches!(ex.outcome, Outcome::Completed) {
+    if ex.unjoined == 0 && matches!(ex.outcome, Outcome::Completed) && !close_in_program {
         // quiescent observations
         if p.cfg.persistent && p.name.starts_with("wb:") {
             // write-behind programs never call flush(): grant coordinator rounds only
@@ -316,6 +337,9 @@ pub fn execute_stall(p: &Program, prefix: &[usize], horizon: usize, on_decision:
     if want_log {
         ex.log = sess.log.lock().clone();
         ex.base = if p.cfg.format >= 3 { vec![0u8; p.cfg.total_blocks() as usize * 4096] } else { crate::layoutref::empty_device(p.cfg.format, p.cfg.total_blocks(), T0 / crate::sut::SEC) };
+    }
+    if close_in_program && (ex.unjoined > 0 || !matches!(ex.outcome, Outcome::Completed)) {
+        // the closing thread is wedged inside the drop: nothing left to clean up here
     }
     if ex.unjoined == 0 {
         sut.close();
